@@ -7,14 +7,14 @@ import (
 
 // ---- C14: pipelines, prefix calls and piped-argument slots are equivalent to plain calls ----
 
-func c14Join3(a, b, c string) string       { return "f(" + a + "," + b + "," + c + ")" }
-func c14Join2(a, b string) string          { return "g(" + a + "," + b + ")" }
-func c14Join1(a string) string             { return "h(" + a + ")" }
+func c14Join3(a, b, c string) string         { return "f(" + a + "," + b + "," + c + ")" }
+func c14Join2(a, b string) string            { return "g(" + a + "," + b + ")" }
+func c14Join1(a string) string               { return "h(" + a + ")" }
 func c14Var(a string, rest ...string) string { return "v(" + a + ";" + strings.Join(rest, ",") + ")" }
 
 type c14Recv struct{ tag string }
 
-func (r c14Recv) M(a, b string) string  { return r.tag + ".M(" + a + "," + b + ")" }
+func (r c14Recv) M(a, b string) string   { return r.tag + ".M(" + a + "," + b + ")" }
 func (r *c14Recv) PM(a, b string) string { return r.tag + ".PM(" + a + "," + b + ")" }
 
 // c14JetFunc records what Arguments.Get / NumOfArguments / IsSet present.
@@ -551,4 +551,84 @@ func H_C14_generated() {
 	vfAssert(e1 == nil && e2 == nil, "both forms evaluate")
 	vfNote(o1)
 	vfAssert(o1 == o2, "the surface form is equivalent to the plain call")
+}
+
+// H_C14_parseInto: a jet.Func that reads its arguments with Arguments.ParseInto (as the
+// ints built-in does) sees the piped value like any other argument: in every surface form
+// (piped with and without a slot, prefix-colon, chained) it computes what the plain call
+// computes, for symbolic integer arguments.
+//
+//gosym:reach rendered
+func H_C14_parseInto() {
+	x, y := ndInt64("x"), ndInt64("y")
+	vfAssume(x > -1000 && x < 1000 && y > -1000 && y < 1000)
+	forms := []string{
+		`{{ sub(x, y) }}`, `{{ x | sub(y) }}`, `{{ x | sub: y }}`, `{{ y | sub(x, _) }}`, `{{ x | sub(_, y) }}`,
+		`{{ sub: x, y }}`, `{{ x | id | sub(y) }}`, `{{ x | sub(y) | id }}`, `{{ x | sub3(y, y) }}`, `{{ x | sub3: y, y }}`,
+	}
+	f := ndChoice("form", len(forms))
+	var got []int64
+	vars := make(VarMap)
+	vars.Set("x", x)
+	vars.Set("y", y)
+	vars.SetFunc("sub", func(a Arguments) reflect.Value {
+		var p, q int64
+		if err := a.ParseInto(&p, &q); err != nil {
+			panic(err)
+		}
+		got = append(got, p, q)
+		return reflect.ValueOf("")
+	})
+	vars.SetFunc("sub3", func(a Arguments) reflect.Value {
+		var p, q, r int64
+		if err := a.ParseInto(&p, &q, &r); err != nil {
+			panic(err)
+		}
+		got = append(got, p, q+r-y)
+		return reflect.ValueOf("")
+	})
+	vars.Set("id", func(v interface{}) interface{} { return v })
+	_, err := hxExec(hxSet(nil, "/m.jet", forms[f]), "/m.jet", vars, nil)
+	vfReach("rendered")
+	vfAssert(err == nil, "evaluates")
+	vfAssert(len(got) == 2 && got[0] == x && got[1] == y, "ParseInto presents the piped value in its position, every argument parsed")
+}
+
+// H_C14_rebound: the same parsed pipeline stage is evaluated again with its name bound to
+// another function - in a later execution of the cached template (Execute variables), and
+// in the next iteration of a range whose variable holds a function: the piped form calls
+// the function the name denotes NOW, exactly like the plain call next to it.
+//
+//gosym:reach rendered
+func H_C14_rebound() {
+	k1, k2 := ndChoice("first", 3), ndChoice("second", 3)
+	fns := []interface{}{
+		func(s string) string { return "de:" + s },
+		func(s string) string { return "fr:" + s },
+		func(s string, more ...string) string { return "v:" + s + strings.Join(more, "") },
+	}
+	tags := []string{"de:", "fr:", "v:"}
+	set := hxSet([]Option{WithSafeWriter(nil)},
+		"/m.jet", `{{ "a" | f }}/{{ f("a") }}/{{ "a" | id | f }}/{{ "a" | f | id }}`,
+		"/loop.jet", `{{ range i, g := fs }}{{ "a" | g }}={{ g("a") }};{{ end }}`)
+	run := func(k int) string {
+		vars := make(VarMap)
+		vars.Set("f", fns[k])
+		vars.Set("id", func(s string) string { return s })
+		out, err := hxExec(set, "/m.jet", vars, nil)
+		if err != nil {
+			return "<error>"
+		}
+		return out
+	}
+	o1, o2 := run(k1), run(k2)
+	vfReach("rendered")
+	w := func(k int) string { t := tags[k] + "a"; return t + "/" + t + "/" + t + "/" + t }
+	vfNote(o2)
+	vfAssert(o1 == w(k1) && o2 == w(k2), "a later execution calls the function the name is bound to then")
+	vars := make(VarMap)
+	vars.Set("fs", []interface{}{fns[k1], fns[k2], fns[k1]})
+	out, err := hxExec(set, "/loop.jet", vars, nil)
+	e := func(k int) string { return tags[k] + "a=" + tags[k] + "a;" }
+	vfAssert(err == nil && out == e(k1)+e(k2)+e(k1), "each iteration calls the function the loop variable holds")
 }
